@@ -59,19 +59,22 @@ HIST = ("Histories are generated as plain data (lattice plug-in engine configura
         "single- and multi-engine layouts, delete_old, seeds, zero-swap probability; 1-3 process lifetimes with generated completion orders, "
         "clean stops and kills) and executed by the real scheduler()/REPEX_state/run_md/PathStorage in forked children behind a "
         "deterministic runner that owns the completion order; a reference model kept by the harness is compared after every event. Sampled. ")
+ENUM = ("In addition small systems (3-5 ensembles, 1-3 workers, sh-only / wf / zero-swap move sets) are explored exhaustively in memory: every "
+        "scheduler draw (scripted rgen.choice/random), every completion order and every synthesised move outcome (reject / accept with each "
+        "admissible weight row), to closure over (weight matrix, busy marks, in-flight set) states, the same invariants evaluated in every state. ")
 add(
     "C03",
     "model-based property testing over generated histories/schedules (Hypothesis), deterministic runner owning the completion order",
-    HIST + "Model: the set of in-flight jobs. Checked after every pick and every treat_output: ensembles/paths/engine instances/worker "
+    HIST + ENUM + "Model: the set of in-flight jobs. Checked after every pick and every treat_output: ensembles/paths/engine instances/worker "
     "directories of in-flight jobs pairwise disjoint; busy marks == in-flight ensembles; picked path sits in its slot with non-zero weight; "
     "engine_occ agrees; zero swaps only when both were idle; cached probability matrix equals a fresh evaluation.",
     "Lazy execution at completion time stands for concurrent execution (workers share nothing - which is what the check verifies). "
-    "md_items cross a pickle boundary as in production. The exhaustive small-system DFS of the design is not built; evidence says sampled.",
+    "md_items cross a pickle boundary as in production. The exhaustive part abstracts paths to their weight rows (outcomes synthesised, not run through an engine).",
 )
 add(
     "C04",
     "model-based property testing over generated histories/schedules (Hypothesis) with a conservation-law model",
-    HIST + "Model: per-column idle counters and the set of archived paths. After every completed step the summed fractions must grow by exactly "
+    HIST + ENUM + "Model: per-column idle counters and the set of archived paths. After every completed step the summed fractions must grow by exactly "
     "1 in idle columns and 0 in busy ones (longdouble, 1e-12), only idle live paths change and only where their weight is non-zero, "
     "data-file rows appended = replaced paths of an accepted move, no path written twice or while live (also across restarts); at the end "
     "rows + [current.frac] = idle counts per column (one worker: = cstep).",
@@ -80,7 +83,7 @@ add(
 add(
     "C05",
     "model-based property testing over generated histories/schedules (Hypothesis) with an independent perfect-matching oracle",
-    HIST + "Before every pick the idle block must have a perfect matching (independent permanent oracle) and the probability matrix must be "
+    HIST + ENUM + "Before every pick the idle block must have a perfect matching (independent permanent oracle) and the probability matrix must be "
     "finite, non-negative and sum to the number of idle ensembles; after every step idle slots have non-zero diagonal, live paths are "
     "distinct, path numbers increase and are never reused across restarts; each restart file loads; an exception or a child that does not "
     "terminate (sort loop) is a violation.",
@@ -89,13 +92,16 @@ add(
 
 add(
     "C06",
-    "differential / metamorphic property testing over generated restart chains and kill schedules (Hypothesis)",
+    "differential / metamorphic property testing over generated restart chains, kill schedules and interpreter hash seeds (Hypothesis)",
     "One worker: a run in one go is compared byte for byte (data file, restart file minus restarted_from, order/energy/traj tables and frame "
     "files of every live path; pid/counter-bearing file names normalised) with chains of clean stops at generated split points, for generated "
     "seeds (not only 0), sh/wf moves, delete_old; repeated runs; restart of a finished run is a no-op. Several workers: kills with jobs in flight, "
     "also after an earlier restart: the jobs in flight as of the last completed step are exactly the first jobs the restart issues; same "
-    "(seed, schedule, kill points) twice gives identical files. Sampled; plug-in lattice engine (exact integers at six decimals).",
-    "allowmaxlength=true for straight-vs-chain, chain-vs-chain otherwise (documented loss of the 'initial path' marker). The TurtleMD variant of the design is not built.",
+    "(seed, schedule, kill points) twice gives identical files. Sampled; plug-in lattice engine (exact integers at six decimals). TurtleMD part: the "
+    "repository's double-well example (Langevin, xyz files, order parameter rounded to six decimals, sh/wf, caps incl. 0.0, delete_old) straight vs. chains. "
+    "Fresh-interpreter part: the same input run twice through infretis.bin.internalrun (real scheduler and process pool) in new interpreters with different "
+    "PYTHONHASHSEED, single- and two-engine layouts: identical files.",
+    "allowmaxlength=true for straight-vs-chain, chain-vs-chain otherwise (documented loss of the 'initial path' marker).",
 )
 add(
     "C07",
@@ -103,9 +109,11 @@ add(
     "The recorder notes seed-sequence identity and initial bit-generator state of the move and engine stream of every ensemble of every job "
     "issued, over up to four process lifetimes with kills (jobs in flight) and clean restarts: pairwise distinct, distinct within a zero swap, "
     "distinct from the scheduler's stream; global numpy/random generators untouched by every move. Differential: another completion order or "
-    "other clean restart points give the same streams to the same job ordinal; another seed shares none. Sampled.",
+    "other clean restart points give the same streams to the same job ordinal; another seed shares none. Engine-class part: the noise of TurtleMD's "
+    "Langevin integrator (also with a stray user `seed` setting), of ASE's Langevin and the seed handed to the (fake) LAMMPS binary are functions of the job's "
+    "engine stream only: same stream => identical trajectory / seed, different stream => different. Sampled.",
     "A job in flight at a kill whose result was never consumed is 'the same job' when it is re-issued (recorded) or re-picked (last, unrecorded pick "
-    "reproduced from the restored generator state). Engine-class specific draws (ASE, TurtleMD, LAMMPS, CP2K) are covered with C16's machinery when registered there.",
+    "reproduced from the restored generator state). Velocity generation per engine class is C16's.",
 )
 
 add(
@@ -203,7 +211,7 @@ add(
     "(a) generated paths (multi-file, arbitrary frame order and indices, reversed frames, 1-3 order components on/off the 6-decimal grid, missing "
     "energies, keep_traj_fnames side files) are stored and loaded back: same length, references, directions, orders and energies to six decimals, "
     "file contents intact under the path's own directory, source object unchanged. (b) " + HIST[0].lower() + HIST[1:] +
-    "After every step: files of all live paths and of the active paths of the restart file on disk exist, no file shared, initial paths "
+    "After every step: files of all live paths, of the active paths of the restart file on disk and of the input paths of the jobs it lists as in flight exist, no file shared, initial paths "
     "byte-identical, replaced paths deleted only with delete_old and not before the lag.",
     "Distinct basenames within a path (pid+counter prefixes). The asserted lag is one replacement less than the implemented one. Crash windows inside a step belong to C08.",
 )
@@ -228,7 +236,7 @@ add(
     "property-based testing (Hypothesis) of every engine class against fake external MD programs with generated output schedules and faults; independent frame readers and reference order parameters",
     "LAMMPS, CP2K and GROMACS engines are run against fake lmp/cp2k/gmx programs (free flight with elastic reflection, real file formats) whose "
     "behaviour script is generated: frames per flush, pauses, frames cut in the middle, slow SIGTERM, death with an exit code at frame m, "
-    "per-frame varying box; ASE and TurtleMD run in-process; the scripted plug-in through EngineBase.propagate. For generated start points "
+    "per-frame varying box, the command being a launcher whose worker child does the writing; ASE and TurtleMD run in-process; the scripted plug-in through EngineBase.propagate. For generated start points "
     "(frame k of a multi-frame file, velocity-direction flag), order parameters (periodic Distance incl. > half a box, Velocity, Distancevel), "
     "interfaces, subcycles, maxlen and direction: first frame = given point; stored order of every frame = order recomputed by the harness "
     "from the frame the path references (own box, own velocity direction); stop rule and success flag; external program gone afterwards; "
